@@ -110,10 +110,12 @@ def s1(ctx):
             return c['args'][idx[0]]
         return None
 
-    def guarded(body, bb, depth, trail):
-        """is the call at (body,bb) only reachable with a non-sequential Params that is the one passed on?"""
+    def guarded(body, bb, depth, trail, expr=None):
+        """is the call at (body,bb) only reachable with a non-sequential Params that is the one passed on?  `expr`: the Params value
+        that reaches the runner, in terms of this body's own parameters, when a callee derived it from what it was given
+        (`fn collect_x_in_parallel(self) { let (params, ..) = self.destruct_x(); kernel(params, ..) }`)"""
         ok, tested = local_guard(body, bb)
-        passed = site_params_term(body, bb)
+        passed = expr if expr is not None else site_params_term(body, bb)
         if ok:
             if passed is not None and tested != passed:
                 return False, 'is_sequential() tested on %s but the call passes %s' % (t_str(tested), t_str(passed)), trail
@@ -126,9 +128,15 @@ def s1(ctx):
             inv0 = closure_invocations(body)
             if inv0 and all(local_guard(hb, ibb)[0] for (hb, ibb) in inv0):
                 return True, 'closure invoked only behind the guard of %s' % ', '.join(sorted({key_of(hb) for hb, _ in inv0})), trail
-        # the callee must pass its own Params parameter on unchanged
+        # the callee must pass its own Params parameter on unchanged - or a plain projection of its own parameters (a field of `self`),
+        # which the callers must then have tested
+        derived = None
         if passed is not None and passed[0] != 'param':
-            return False, 'unguarded call passes a Params that is not the function\'s own parameter (%s)' % t_str(passed), trail
+            leaves = {x for x in subterms(passed) if x[0] == 'param'}
+            plain = all(x[0] in ('param', 'field', 'tuple', 'variant', 'ref', 'mut', 'const') for x in subterms(passed))
+            if body.is_closure() or not leaves or not plain:
+                return False, 'unguarded call passes a Params that is not the function\'s own parameter (%s)' % t_str(passed), trail
+            derived = passed
         host = body
         site_kind = ('direct', 'cha')
         if body.is_closure():
@@ -145,7 +153,15 @@ def s1(ctx):
             return False, 'unguarded and no caller found that could justify it', trail
         for (cn, k, cbb) in callers:
             cb = F.bodies[cn]
-            ok2, why, tr = guarded(cb, cbb, depth + 1, trail + [key_of(cb)])
+            expr2 = None
+            if derived is not None:
+                cc = ctx.run(cn).calls.get(cbb)
+                names = [host.local_name(l) for l in host.arg_locals()]
+                if cc is None or len(cc['args']) != len(names):
+                    return False, 'unguarded call passes %s and the caller %s cannot be matched to it' % (t_str(derived), key_of(cb)), trail
+                from .terms import subst_terms
+                expr2 = subst_terms(derived, {('param', nm): a for nm, a in zip(names, cc['args']) if nm and a is not None})
+            ok2, why, tr = guarded(cb, cbb, depth + 1, trail + [key_of(cb)], expr2)
             if not ok2:
                 return False, 'caller %s: %s' % (key_of(cb), why), tr
         return True, 'guarded in every caller (%s)' % ', '.join(sorted({key_of(F.bodies[c[0]]) for c in callers})), trail
@@ -354,11 +370,53 @@ SOURCE_CONSUMERS = PULL_SIZED | PULL_ELEMENT | {'into_seq_iter', 'skip_to_end'}
 ITER_CONSUMERS = ITER_EXHAUSTIVE | ITER_SHORT_CIRCUIT | {'next', 'nth', 'last'}
 
 
+def _unref(t):
+    while t is not None and t[0] in ('mut', 'ref'):
+        t = t[1]
+    return t
+
+
+def crate_builder_param(ctx, b, p, depth=0):
+    """the closure-typed parameter `p` of the private crate function `b` never holds a user closure: every call of `b` in the crate
+    hands it a closure *literal* whose body (and what it reaches) neither runs user code nor consumes elements - a building step
+    such as `self.refine_filter(|filter1| both(filter1, filter))`, which only composes closures"""
+    F = ctx.facts
+    if b.d.get('vis_pub') or b.kind == 'Closure' or depth > 2:
+        return False
+    idx = None
+    for i, l in enumerate(b.arg_locals()):
+        if local_type_param(b, l) == p:
+            idx = i if idx is None else -1
+    if idx is None or idx < 0:
+        return False
+    sites = 0
+    for cb in F.bodies.values():
+        for bb, t in cb.calls():
+            if callee_of(t) != b.name:
+                continue
+            sites += 1
+            c = ctx.run0(cb.name).calls.get(bb)
+            a = c['args'][idx] if c is not None and idx < len(c['args']) else None
+            if a is None or a[0] != 'closure' or a[1] not in F.bodies:
+                return False
+            for n in [a[1]] + [x for x in ctx.cg.reach(a[1]) if x != a[1]]:
+                nb = F.bodies.get(n)
+                if nb is None or _sink_events(ctx, nb, depth + 1):
+                    return False
+    return sites > 0
+
+
 def body_sink_events(ctx, b):
+    return _sink_events(ctx, b, 0)
+
+
+def _sink_events(ctx, b, depth):
     """events inside one body that run user code or consume source elements"""
     ev = []
     for bb, t in b.calls():
         p = is_user_closure_call(t, b)
+        if p and crate_builder_param(ctx, b, p, depth):
+            p = None
         if p:
             ev.append(('calls user closure %s' % p, t.get('line')))
         if is_coniter_call(t, SOURCE_CONSUMERS) or is_buffered_next(t):
@@ -491,6 +549,11 @@ def c16(ctx):
             if c['t'].get('local') and cal in F.bodies and not ctx.cfg(F.bodies[cal]).loops() and c['res'] is not None and \
                     not (c['res'][0] == 'call' and c['res'][1] == cal) and all(only_stored(c['res'], p_) for p_ in own):
                 continue
+            if d_ in ('std::ops::Fn::call', 'std::ops::FnMut::call_mut', 'std::ops::FnOnce::call_once') and c['args'] and _unref(c['args'][0]) in own:
+                # a private helper whose closure parameter is always a building step written in the crate (judged at those literals)
+                tp = [local_type_param(b, l) for l in b.arg_locals() if ('param', b.local_name(l)) == _unref(c['args'][0])]
+                if tp and crate_builder_param(ctx, b, tp[0]):
+                    continue
             for a in c['args']:
                 hit = [p_ for p_ in own if any(x == p_ for x in subterms(a))]
                 if hit:
@@ -1133,7 +1196,9 @@ def c05_affine(ctx):
             n += 1
             key = 'C05-AFFINE/%s/%s' % (key_of(b), p)
             byref = fb['by_ref']
-            if len(byref) == 1 and byref[0]:
+            if fb['trait'].endswith('::FnOnce'):
+                ok, why = True, 'FnOnce: callable at most once by its type'
+            elif len(byref) == 1 and byref[0]:
                 ok = fb['output'] == 'bool'
                 why = 'by-reference predicate -> bool' if ok else 'takes its element by reference but is not a predicate (returns %s)' % fb['output']
             elif len(byref) == 1:
